@@ -41,6 +41,9 @@ type EmbedFull struct {
 type EmbedPtr struct {
 	PX int
 }
+type embedPriv struct {
+	PV int
+}
 type EmbedIface interface{ Local() int }
 type EmbedNamed float64
 func fnA(x int) string { return "a" }
@@ -376,6 +379,7 @@ type structSpec struct {
 	handBuild   string
 	handGetPub  string     // hand-written GetF of a public field
 	handWithPub string     // hand-written WithF of a public field
+	handJson    string     // @fp.Json with one of the two JSON methods written by hand: "marshal" / "unmarshal" ("" = none)
 	values      [][]string // literal per field, per value
 	decode      []string
 }
@@ -397,6 +401,9 @@ var underscoreNames = []string{"_hidden", "_skip"}
 // sorted by field name) must separate them
 var numericNames = []string{"a", "a0", "a1", "a01", "a2", "a10", "a02", "n", "n0", "n00", "q9", "q09", "q10", "i1", "i01", "i001"}
 
+// forcePlainWide is set by drawPkg while it draws the single struct of a "plain wide" package.
+var forcePlainWide bool
+
 func drawStruct(t *rapid.T, idx int, exclFragile map[string]bool, forceJson bool) structSpec {
 	s := structSpec{name: fmt.Sprintf("S%d", idx), value: true}
 	if rapid.IntRange(0, 3).Draw(t, "generic") == 0 {
@@ -408,6 +415,8 @@ func drawStruct(t *rapid.T, idx int, exclFragile map[string]bool, forceJson bool
 			{"comparable", basicTypes()[0]}, // int
 			{"fmt.Stringer", ty{expr: "time.Duration", imports: []string{"time", "fmt"}, jsonSafe: true, lit: func(t *rapid.T) string { return "time.Duration(2)" }}},
 			{"interface{ Local() int }", ty{expr: "localImpl", jsonSafe: true, lit: func(t *rapid.T) string { return "localImpl(3)" }}},
+			// a constraint that is a type set, not a method set
+			{"interface{ ~int | ~string }", ty{expr: "MyInt", jsonSafe: true, lit: func(t *rapid.T) string { return "MyInt(" + intLit(t) + ")" }}},
 		}
 		n := rapid.IntRange(1, 3).Draw(t, "nparams")
 		for i := 0; i < n; i++ {
@@ -460,6 +469,12 @@ func drawStruct(t *rapid.T, idx int, exclFragile map[string]bool, forceJson bool
 	if s.json && nf > 8 {
 		nf = 8
 	}
+	plainWide := nf >= 22 && s.labelled && len(s.params) == 0 && rapid.Bool().Draw(t, "plainWide")
+	if forcePlainWide && !s.json && len(s.params) == 0 {
+		// the only struct of its package: more fields than the tuple limit, labelled, no field type from fp
+		nf = rapid.SampledFrom([]int{22, 23, 25}).Draw(t, "wideFields")
+		s.labelled, plainWide = true, true
+	}
 	used := map[string]bool{}
 	pick := func(pool []string, lbl string) string {
 		for i := 0; i < 50; i++ {
@@ -499,9 +514,14 @@ func drawStruct(t *rapid.T, idx int, exclFragile map[string]bool, forceJson bool
 			f.name = pick(underscoreNames, "uname")
 		case "embedded":
 			// embedded fields that are not structs: a pointer to a struct, an interface, a named non-struct type
-			if k := rapid.IntRange(0, 5).Draw(t, "embedKind"); k <= 2 && !used[[]string{"embedptr", "embediface", "embednamed"}[k]] {
-				used[[]string{"embedptr", "embediface", "embednamed"}[k]] = true
+			if k := rapid.IntRange(0, 6).Draw(t, "embedKind"); k <= 3 && !used[[]string{"embedptr", "embediface", "embednamed", "embedpriv"}[k]] {
+				used[[]string{"embedptr", "embediface", "embednamed", "embedpriv"}[k]] = true
 				switch k {
+				case 3:
+					// an embedded struct of an UNEXPORTED type: the field is called embedPriv, a private field
+					f = field{name: "embedPriv", embedded: true, t: ty{expr: "embedPriv", kind: "embedded-private", lit: func(t *rapid.T) string {
+						return "embedPriv{PV: " + intLit(t) + "}"
+					}}}
 				case 0:
 					f = field{name: "EmbedPtr", embedded: true, t: ty{expr: "*EmbedPtr", kind: "embedded-pointer", lit: func(t *rapid.T) string {
 						if rapid.Bool().Draw(t, "nilEmbedPtr") {
@@ -531,7 +551,13 @@ func drawStruct(t *rapid.T, idx int, exclFragile map[string]bool, forceJson bool
 			}
 		}
 		if f.t.expr == "" {
-			f.t = composite(t, rapid.IntRange(0, 2).Draw(t, "depth"), s.json, s.params)
+			if plainWide {
+				// a wide labelled struct whose fields use no type of package fp: the generated file then needs
+				// fp for nothing but the per-name declarations
+				f.t = rapid.SampledFrom(basicTypes()).Draw(t, "plainElem")
+			} else {
+				f.t = composite(t, rapid.IntRange(0, 2).Draw(t, "depth"), s.json, s.params)
+			}
 		}
 		if !f.embedded {
 			switch rapid.IntRange(0, 5).Draw(t, "tag") {
@@ -591,6 +617,11 @@ func drawStruct(t *rapid.T, idx int, exclFragile map[string]bool, forceJson bool
 				s.handWithPub = f.name
 			}
 		}
+	}
+	if s.json && s.value && rapid.IntRange(0, 3).Draw(t, "handJson") == 0 {
+		// one half of the JSON pair written by hand (with the text the generator itself would emit, so every
+		// JSON law stays as it is); the other half must still be generated
+		s.handJson = rapid.SampledFrom([]string{"marshal", "unmarshal"}).Draw(t, "handJsonHalf")
 	}
 	s.multiName = rapid.IntRange(0, 2).Draw(t, "multiName") == 0
 	if s.multiName {
@@ -734,6 +765,9 @@ func (p pkgSpec) source() string {
 		if s.useShow == "var" || s.useShow == "func" {
 			imports["github.com/csgura/fp/show"] = true
 		}
+		if s.handJson != "" {
+			imports["encoding/json"] = true
+		}
 	}
 	for _, d := range p.derefs {
 		if d.pb {
@@ -834,6 +868,20 @@ func (p pkgSpec) source() string {
 		if s.handWithPub != "" {
 			f := fidx(s.handWithPub)
 			fmt.Fprintf(&sb, "\n// hand-written With of a public field: the generator must not emit a second one\nfunc (x %s) With%s(nv %s) %s { return x }\n", s.name, f.name, f.t.expr, s.name)
+		}
+		recv := s.name
+		if len(s.params) > 0 {
+			var ns []string
+			for _, tp := range s.params {
+				ns = append(ns, tp.name)
+			}
+			recv += "[" + strings.Join(ns, ", ") + "]"
+		}
+		switch s.handJson {
+		case "marshal":
+			fmt.Fprintf(&sb, "\n// hand-written half of the JSON pair: the generator must still emit UnmarshalJSON\nfunc (x %s) MarshalJSON() ([]byte, error) {\n\treturn json.Marshal(x.AsMutable())\n}\n", recv)
+		case "unmarshal":
+			fmt.Fprintf(&sb, "\n// hand-written half of the JSON pair: the generator must still emit MarshalJSON\nfunc (x *%s) UnmarshalJSON(b []byte) error {\n\tif x == nil {\n\t\treturn errors.New(\"target ptr is nil\")\n\t}\n\tm := x.AsMutable()\n\terr := json.Unmarshal(b, &m)\n\tif err == nil {\n\t\t*x = m.AsImmutable()\n\t}\n\treturn err\n}\n", recv)
 		}
 		if s.useShow == "var" || s.useShow == "func" {
 			body := fmt.Sprintf("fpshow.New(func(v %s) string { return %s })", s.name, s.showBody())
